@@ -197,8 +197,10 @@ func c10Arms(c *Ctx, f *ssa.Function) {
 		for _, name := range []string{"OUT_OF_GAS", "PANIC"} {
 			if k, ok := c.Obj("PVM", name).(*types.Const); ok {
 				kv := k.Val().ExactString()
-				if s == "("+kv+" == p1)" || s == "(p1 == "+kv+")" {
-					return true, true
+				for _, opnd := range []string{"p1", "p1.(PVM.ExitReasonType)#0"} {
+					if s == "("+kv+" == "+opnd+")" || s == "("+opnd+" == "+kv+")" {
+						return true, true
+					}
 				}
 			}
 		}
